@@ -21,7 +21,7 @@ Flip(z, pct) == RandomElement(1..100) <= pct
 Pick(z, seq) == seq[RandomElement(1..Len(seq))]
 
 \* unit families inside which every conversion is exact
-Families == << {"LITER", "CUBIC_METER"}, {"LITER", "CUBIC_METER"}, {"LITER"}, {"CUP"}, {"METER"}, {"KILOGRAM"}, {"NO_UNIT"} >>
+Families == << {"LITER", "CUBIC_METER"}, {"LITER", "CUBIC_METER"}, {"LITER"}, {"CUP"}, {"METER"}, {"KILOGRAM"}, {"NO_UNIT"}, {"NO_UNIT"} >>
 \* k eighths of a cubic metre / k halves of any other unit, in thousandths of u
 Amount(u, k) == CASE u = "LITER" -> 125000 * k [] u = "CUBIC_METER" -> 125 * k [] OTHER -> 500 * k
 
@@ -44,10 +44,19 @@ Op(z, fams) ==
   LET op == Pick(z, <<"Dispense", "Dispense", "Dispense", "Dispense", "Dispense", "Dispense", "CreateStock", "DeleteStock", "Convert">>)
       k == RandomElement(1..Len(NameOrder))
       n == NameOrder[k]
-      u == IF op = "Convert" THEN R(Units) ELSE IF Flip(z, 80) THEN R(fams[k]) ELSE R(Units)
+      \* a dispense whose quantity has the unit left out (UNIT_UNSPECIFIED) is a request clients do send
+      u == IF op = "Convert" THEN R(Units) ELSE IF Flip(z, 8) THEN "UNIT_UNSPECIFIED"
+           ELSE IF Flip(z, 80) THEN R(fams[k]) ELSE R(Units)
       u2 == IF Flip(z, 70) THEN R({x \in Units : Cat(x) = Cat(u)}) ELSE R(Units)
   IN [op |-> op, name |-> n, q |-> [unit |-> u, m |-> Amount(u, R(0..12))], unit2 |-> u2,
       stock |-> StockRec(z, n, fams[k])]
+
+SweepOp(k) ==
+  LET n == Len(UnitOrder)
+      u == UnitOrder[((k - 1) % n) + 1]
+      u2 == UnitOrder[(((k - 1) \div n) % n) + 1]
+  IN [op |-> "Convert", name |-> NameOrder[1], q |-> [unit |-> u, m |-> Amount(u, R(1..12))], unit2 |-> u2,
+      stock |-> [name |-> NameOrder[1], used |-> NoQ, remaining |-> NoQ]]
 
 Prog(k) ==
   \* tuples, not [j \in .. |-> ..]: TLC re-evaluates a function body at every application
@@ -60,7 +69,8 @@ Prog(k) ==
       cfg |-> [via |-> Pick(k, <<"initial", "initial", "option">>),
                stocks |-> [j \in 1..Len(idx) |-> StockRec(k, NameOrder[idx[j]], fams[idx[j]])],
                cons |-> [j \in 1..Len(cidx) |-> NameOrder[cidx[j]]]],
-      ops |-> [j \in 1..R(10..MaxOps) |-> Op(k, fams)]]
+      \* every walk starts with one Convert of the all-pairs sweep (walk k takes pair k of the |Units|^2 pairs)
+      ops |-> <<SweepOp(k)>> \o [j \in 1..R(10..MaxOps) |-> Op(k, fams)]]
 
 GenInit == c \in { Prog(k) : k \in 1..NCases }
 GenNext == UNCHANGED c
